@@ -377,6 +377,17 @@ func (w *World) funcTargets(v ssa.Value, depth int) (out []*ssa.Function, known 
 		if g, ok := x.X.(*ssa.Global); ok && g.Pkg != nil && !InScope(g.Pkg.Pkg) {
 			return nil, true
 		}
+	case *ssa.Extract:
+		// a function handed back by a library call (`cacheCtx, write := ctx.CacheContext()`): made outside the repository
+		if call, ok := x.Tuple.(*ssa.Call); ok {
+			if sc := call.Common().StaticCallee(); sc != nil && FnPkg(sc) != nil && !InScope(FnPkg(sc)) && !load.IsFixturePkg(FnPkg(sc)) {
+				return nil, true
+			}
+		}
+	case *ssa.Call:
+		if sc := x.Common().StaticCallee(); sc != nil && FnPkg(sc) != nil && !InScope(FnPkg(sc)) && !load.IsFixturePkg(FnPkg(sc)) {
+			return nil, true
+		}
 	}
 	// a function value read from a field, a slice or map element, a channel, another call's result ...: approximated by
 	// every in-scope function of the same signature whose address is taken somewhere (the classic address-taken
